@@ -1,6 +1,7 @@
 //! Shared utilities of the verification harnesses (deterministic PRNG, token output, simulated chain).
 pub mod rng;
 pub mod simchain;
+pub mod locks;
 pub mod simnode;
 pub mod world;
 
